@@ -4,7 +4,7 @@
 # LzProofs/GenDecoderProps.lean, LzProofs/GenWrapProps.lean; plus the pilot of the parser loop
 # (tools/extract/code_parse.go, LzProofs/GenHPParse.lean; the mutants of the greedy loop are in genhp_selftest.sh).
 #
-# For every mutant: copy the repository to <verif>/scratch-repo, apply one small semantic
+# For every mutant: copy the repository to a fresh directory under /tmp, apply one small semantic
 # change, regenerate LzModel/Generated/Code*.lean from the copy into a COPY of the lake
 # project, and build the GenDecoderProps / GenWrapProps modules there.
 #   kind proof    : the build must FAIL (the failing theorems are listed)
@@ -21,7 +21,7 @@ REPO="${REPO:-/repo}"
 SCRATCH="$(mktemp -d /tmp/pf-gendec-selftest.XXXXXX)"
 LEAN="$SCRATCH/lean"
 GEN="$LEAN/LzModel/Generated"
-MUT="$HERE/scratch-repo"
+MUT="$(mktemp -d /tmp/pf-mutrepo.XXXXXX)/scratch-repo"   # scratch copies of the library live outside /verif and /repo
 EXTRACT="$SCRATCH/extract"
 TARGETS="${TARGETS:-LzProofs.GenDecoderProps LzProofs.GenWrapProps LzProofs.GenHPParse}"
 bad=0; good=0; total=0
